@@ -34,9 +34,10 @@ theorem nuU_set {s : St V} {i : Nat} {g g' : G V} (hg : s.gs[i]? = some g) (c : 
   omega
 
 /-- **Every step other than a new consumer call strictly decreases `nuU`.** -/
-theorem nuU_decreases {s s' : St V} {l : Label V} (h : step s l = some s') (hl : isCall l = false) :
-    nuU s' < nuU s := by
+theorem nuU_decreases {s s' : St V} {l : Label V} (ho : s.origin = .plainCancel) (h : step s l = some s')
+    (hl : isCall l = false) : nuU s' < nuU s := by
   cases l with
+  | ctxEnds => exact (no_ctxEnds ho h).elim
   | cCall live => simp [isCall] at hl
   | cClose => simp [isCall] at hl
   | inItem i v =>
@@ -108,17 +109,17 @@ theorem nuU_decreases {s s' : St V} {l : Label V} (h : step s l = some s') (hl :
 
 /-! ## runs -/
 
-theorem run_nuU {ls : List (Label V)} : ∀ {s s' : St V}, run s ls = some s' →
+theorem run_nuU {ls : List (Label V)} : ∀ {s s' : St V}, s.origin = .plainCancel → run s ls = some s' →
     (∀ l ∈ ls, isCall l = false) → ls.length + nuU s' ≤ nuU s := by
   induction ls with
-  | nil => intro s s' h _; simp [run] at h; subst h; simp
+  | nil => intro s s' _ h _; simp [run] at h; subst h; simp
   | cons l ls ih =>
-    intro s s' h hl
+    intro s s' ho h hl
     simp only [run] at h
     split at h
     · next s1 hs1 =>
-      have h1 := nuU_decreases hs1 (hl l (by simp))
-      have h2 := ih h (fun x hx => hl x (by simp [hx]))
+      have h1 := nuU_decreases ho hs1 (hl l (by simp))
+      have h2 := ih ((step_origin hs1).trans ho) h (fun x hx => hl x (by simp [hx]))
       simp only [List.length_cons]; omega
     · simp at h
 
@@ -258,6 +259,7 @@ theorem step_consumer {s s' : St V} {l : Label V} (h : step s l = some s') :
   | inEnd i => obtain ⟨g, _, _, rfl⟩ := step_inEnd h; exact .inl ⟨rfl, rfl⟩
   | inErr i e => obtain ⟨g, _, _, rfl⟩ := step_inErr h; exact .inl ⟨rfl, rfl⟩
   | inCtx i => obtain ⟨g, _, _, _, rfl⟩ := step_inCtx h; exact .inl ⟨rfl, rfl⟩
+  | ctxEnds => obtain ⟨_, _, rfl⟩ := step_ctxEnds h; exact .inl ⟨rfl, rfl⟩
   | cas i =>
     obtain ⟨g, e, _, _, hc⟩ := step_cas h
     rcases hc with ⟨_, rfl⟩ | ⟨_, rfl⟩ <;> exact .inl ⟨rfl, rfl⟩
@@ -339,7 +341,8 @@ theorem exists_service_step {k : Nat} {s : St V} {live : Bool} (ha : InvA k s) (
     | some s' => exact ⟨l, s', .inl hmem, hst⟩
 
 /-- **`Next` of the merged stream completes**, provided the inputs' pending `Next` calls return. -/
-theorem exists_next_run {k : Nat} (s0 : St V) : ∀ (n : Nat) (s : St V), Reach (init V k) s → NextOutcome s0 s →
+theorem exists_next_run {k : Nat} (ho : ctxOrigin = .plainCancel) (s0 : St V) :
+    ∀ (n : Nat) (s : St V), Reach (init V k) s → NextOutcome s0 s →
     nuU s ≤ n →
     ∃ ls s', (∀ l ∈ ls, isCall l = false) ∧ run s ls = some s' ∧ s'.cpc = .idle ∧ ∃ r, s'.results = s0.results ++ [r] := by
   intro n
@@ -352,7 +355,7 @@ theorem exists_next_run {k : Nat} (s0 : St V) : ∀ (n : Nat) (s : St V), Reach 
         rcases hl with hl | hl
         · exact isCall_of_internal hl
         · exact isCall_of_inputReturn hl
-      have := nuU_decreases hst hcall; omega
+      have := nuU_decreases ((reach_invA h).org.trans ho) hst hcall; omega
     · exact ⟨[], s, by simp, rfl, hp, hr⟩
   | succ n ih =>
     intro s h hp hn
@@ -362,7 +365,7 @@ theorem exists_next_run {k : Nat} (s0 : St V) : ∀ (n : Nat) (s : St V), Reach 
         rcases hl with hl | hl
         · exact isCall_of_internal hl
         · exact isCall_of_inputReturn hl
-      have hd := nuU_decreases hst hcall
+      have hd := nuU_decreases ((reach_invA h).org.trans ho) hst hcall
       have hp1 := nextOutcome_step (Or.inl ⟨⟨live, hp⟩, hr⟩) hcall hst
       obtain ⟨ls, s', h1, h2, h3⟩ := ih s1 (.step l h hst) hp1 (by omega)
       refine ⟨l :: ls, s', ?_, by simp [run, hst, h2], h3⟩
